@@ -562,6 +562,41 @@ func c14Judge(c *fw.Ctx, k *fw.K, id string, pp persoPlan, p *perso.Perso, s1, s
 				k.Violation(fmt.Sprintf("offline:dg-tamper-undetected:DG%d", n), fmt.Sprintf("DG%d changed at offset %d but passive authentication is still successful offline", n, pos), det(map[string]any{"dg": n, "offset": pos}))
 			}
 		}
+		// a key file that the security object lists is taken out of the bundle: the completeness
+		// verdict (and with it the trusted verdict) must fail offline as it does live
+		for _, n := range []int{14, 15} {
+			if docFile(&live.Document, fmt.Sprintf("DG%d", n)) == nil || live.Document.Mf.Lds1.Sod == nil || !live.Document.Mf.Lds1.Sod.HasDgHash(n) {
+				continue
+			}
+			d := c14Clone(s1.blob)
+			if n == 14 {
+				d.Document.Mf.Lds1.Dg14 = nil
+			} else {
+				d.Document.Mf.Lds1.Dg15 = nil
+			}
+			blob, err := d.ToCbor()
+			if err != nil {
+				continue
+			}
+			k.AddEvals(1)
+			k.Distinct(fmt.Sprintf("%s|dg%d|removed", id, n))
+			res, err := verifier.NewVerifier(pool).Verify(blob)
+			if err != nil || res == nil || !res.Summary().DataTrusted {
+				k.Count(fmt.Sprintf("listed_key_file_removed_detected_DG%d", n))
+				continue
+			}
+			others := "with-DG14"
+			if docFile(&live.Document, "DG14") == nil {
+				others = "no-DG14-on-chip"
+			}
+			if n == 14 {
+				others = "with-DG15"
+				if docFile(&live.Document, "DG15") == nil {
+					others = "no-DG15-on-chip"
+				}
+			}
+			k.Violation(fmt.Sprintf("offline:listed-file-removed-still-trusted:DG%d:%s", n, others), fmt.Sprintf("DG%d, listed in the security object, was removed from the bundle but the offline verdict is still trusted (completeness: %v)", n, res.Session.DocumentVerifyErr), det(map[string]any{"dg": n}))
+		}
 	}
 }
 
